@@ -897,6 +897,8 @@ impl Session {
             }
             "probe_ctl" => {
                 crate::probe::FAIL_SEAL.with(|c| c.set(a.u("fail_seal") as u32));
+                crate::probe::PANIC_OPEN.with(|c| c.set(a.u("panic_open") as u32));
+                crate::probe::PANIC_SEAL.with(|c| c.set(a.u("panic_seal") as u32));
                 f.ok().kv("seals_seen", crate::probe::SEALS.with(|c| c.get()));
             }
             "residue_scan" => {
